@@ -218,31 +218,14 @@ def run(repo: Repo, rep: Report, tier: str) -> None:
     rep.rule("ac-partition", "every negotiated context lands in exactly one of accepted / rejected: the A-ASSOCIATE-AC answers all of them")
     na = repo.func("acse", "ACSE._negotiate_as_acceptor")
     fqn = "acse.ACSE._negotiate_as_acceptor"
-    acc = [s_ for s_ in walk_no_nested(na) if isinstance(s_, ast.Assign) and norm(s_.targets[0]) == "self.assoc._accepted_cx"]
-    rej = [s_ for s_ in walk_no_nested(na) if isinstance(s_, ast.Assign) and norm(s_.targets[0]) == "self.assoc._rejected_cx"]
-    okp = False
-    why = "split not recognised"
-    if len(acc) == 1 and len(rej) == 1 and isinstance(acc[0].value, ast.DictComp) and isinstance(rej[0].value, ast.ListComp):
-        ga, gr = acc[0].value.generators[0], rej[0].value.generators[0]
-        ca = [norm(x) for x in ga.ifs]
-        cr = [norm(x) for x in gr.ifs]
-        same_src = norm(ga.iter) == norm(gr.iter)
-        v = norm(ga.target)
-        okp = same_src and ca == [f"{v}.result == 0"] and cr == [f"{norm(gr.target)}.result != 0"] and norm(rej[0].value.elt) == norm(gr.target)
-        why = f"accepted if {ca}, rejected if {cr}"
-    else:
-        # loop form: for cx in result: if cx.result == 0: accepted[..] = cx  else: rejected.append(cx)
-        for lp_ in [f for f in walk_no_nested(na) if isinstance(f, ast.For)]:
-            ifs_ = [i for i in lp_.body if isinstance(i, ast.If)]
-            touches = any("_accepted_cx" in norm(x) or "_rejected_cx" in norm(x) for x in ast.walk(lp_) if isinstance(x, ast.stmt))
-            if not touches:
-                continue
-            v = norm(lp_.target)
-            if len(ifs_) == 1 and norm(ifs_[0].test) == f"{v}.result == 0":
-                plain_else = bool(ifs_[0].orelse) and not (len(ifs_[0].orelse) == 1 and isinstance(ifs_[0].orelse[0], ast.If))
-                okp = plain_else and any("_rejected_cx.append" in norm(x) for x in ifs_[0].orelse) and any("_accepted_cx[" in norm(x) for x in ifs_[0].body)
-                why = "loop form: " + ("plain else" if plain_else else "the non-accepted branch is conditional (elif): some results fall into neither list")
-    rep.check(okp, "ac-partition", fqn, f"accepted / rejected split: {why}", "a negotiated context that is neither accepted nor rejected (e.g. result 0x01, refused through role selection) gets no result item in the A-ASSOCIATE-AC: PS3.8 requires one result item per proposed context", mod=repo.mod("acse"), node=(rej[0] if rej else na))
+    # decided by evaluating the statements (inline or in a helper method) on contexts with every result code
+    from ..nego_eval import eval_context_partition
+    from ..minipy import Unsupported as _Unsup12
+    try:
+        probs, n_sites = eval_context_partition(repo, na)
+        rep.check(n_sites >= 1 and not probs, "ac-partition", fqn, probs[0][0] if probs else "accepted = result 0, rejected = every other result", f"a negotiated context that is neither accepted nor rejected (e.g. result 0x01, refused through role selection) gets no result item in the A-ASSOCIATE-AC: PS3.8 requires one result item per proposed context{': ' + probs[0][1] if probs else ''}", mod=repo.mod("acse"), node=probs[0][0] if probs else na)
+    except _Unsup12 as exc:
+        rep.defer(f"{fqn}: the accepted / rejected partition could not be evaluated ({exc})")
     check_validators(repo, rep)
 
 # ---- validator character classes ------------------------------------------------------------
